@@ -863,9 +863,9 @@ def _confirm(case, gname, model, ctx, env, goal_index=None, exc=None, tb=None, c
 # --------------------------------------------------------------------------
 
 TIERS = {
-    "quick": dict(timeout_ms=20000, feas_timeout_ms=2000, case_budget_s=150, cross=True, cross_per_case=1, cross_cap_s=20,
+    "quick": dict(timeout_ms=20000, feas_timeout_ms=400, case_budget_s=150, cross=True, cross_per_case=1, cross_cap_s=20,
                   cross_cases=6),
-    "thorough": dict(timeout_ms=120000, feas_timeout_ms=5000, case_budget_s=900, cross=True, cross_per_case=2, cross_cap_s=60,
+    "thorough": dict(timeout_ms=120000, feas_timeout_ms=2000, case_budget_s=900, cross=True, cross_per_case=2, cross_cap_s=60,
                      cross_cases=24),
 }
 
@@ -883,6 +883,112 @@ def _worker(i):
     except BaseException as e:  # harness failure
         return i, dict(name=case.name, family=case.family, params=case.params, harness_error=repr(e),
                        tb=traceback.format_exc()[-3000:])
+
+
+def _child(i, conn):
+    try:
+        r = _worker(i)
+        conn.send(r)
+    except BaseException as e:  # noqa
+        try:
+            conn.send((i, dict(name=_CASES[i].name, family=_CASES[i].family, params=_CASES[i].params,
+                               harness_error="worker failed: %r" % (e,), tb=traceback.format_exc()[-2000:])))
+        except Exception:
+            pass
+    finally:
+        conn.close()
+        os._exit(0)
+
+
+def _run_parallel(reports, jobs, cfg):
+    """one forked process per case, hard wall-clock limit, survives crashing/hanging workers"""
+    ctxm = multiprocessing.get_context("fork")
+    pending = list(range(len(_CASES)))
+    running = {}  # i -> (proc, conn, t0, limit)
+
+    def dead(i, why):
+        return (i, dict(name=_CASES[i].name, family=_CASES[i].family, params=_CASES[i].params, harness_error=why))
+
+    while pending or running:
+        while pending and len(running) < jobs:
+            i = pending.pop(0)
+            pc, cc = ctxm.Pipe(duplex=False)
+            p = ctxm.Process(target=_child, args=(i, cc))
+            p.daemon = True
+            p.start()
+            cc.close()
+            budget = _CASES[i].budget_s or cfg["case_budget_s"]
+            running[i] = (p, pc, time.time(), max(3 * budget, 240))
+        done = []
+        for i, (p, pc, t0, limit) in running.items():
+            got = None
+            try:
+                if pc.poll(0):
+                    got = pc.recv()
+            except (EOFError, OSError):
+                got = dead(i, "worker died (exit code %s)" % p.exitcode)
+            if got is None and not p.is_alive():
+                try:
+                    got = pc.recv() if pc.poll(0.2) else dead(i, "worker died (exit code %s)" % p.exitcode)
+                except (EOFError, OSError):
+                    got = dead(i, "worker died (exit code %s)" % p.exitcode)
+            if got is None and time.time() - t0 > limit:
+                p.kill()
+                got = dead(i, "worker exceeded the hard wall-clock limit of %ds and was killed" % limit)
+            if got is not None:
+                reports[i] = got[1]
+                done.append(i)
+        for i in done:
+            p, pc, _, _ = running.pop(i)
+            try:
+                pc.close()
+            except Exception:
+                pass
+            p.join(timeout=1)
+            if p.is_alive():
+                p.kill()
+        if not done:
+            time.sleep(0.02)
+
+
+def _selftest_in_child():
+    if os.environ.get("VERIF_SKIP_SELFTEST"):
+        return []
+    ctxm = multiprocessing.get_context("fork")
+    pc, cc = ctxm.Pipe(duplex=False)
+
+    def work(conn):
+        try:
+            torch.set_num_threads(1)
+            from . import selftest
+            conn.send(selftest.run())
+        except BaseException as e:  # noqa
+            conn.send(["selftest crashed: %r" % (e,)])
+        finally:
+            conn.close()
+            os._exit(0)
+
+    p = ctxm.Process(target=work, args=(cc,))
+    p.start()
+    cc.close()
+    out = ["selftest did not answer"]
+    if pc.poll(300):
+        try:
+            out = pc.recv()
+        except EOFError:
+            pass
+    p.join(timeout=5)
+    if p.is_alive():
+        p.kill()
+    return out
+
+
+def _selftest_count():
+    try:
+        from . import selftest
+        return len(selftest.CASES)
+    except Exception:
+        return 0
 
 
 def load_known(prop):
@@ -918,14 +1024,13 @@ def run_check(prop, cases, tier, meta, seed=0, only=None, jobs=None):
     cross_idx = set(rnd.sample(idxs, min(n_cross, len(idxs))))
     cfg["cross_idx"] = cross_idx
     _CASES, _CFG = cases, cfg
+    # translator validation of the kernel table (forked child, so the parent stays torch-idle before forking)
+    st_fail = _selftest_in_child()
     _start_monitor()
     jobs = jobs or int(os.environ.get("VERIF_JOBS", "16"))
     reports = [None] * len(cases)
     if jobs > 1 and len(cases) > 1:
-        ctxm = multiprocessing.get_context("fork")
-        with ctxm.Pool(min(jobs, len(cases)), maxtasksperchild=8) as pool:
-            for i, rep in pool.imap_unordered(_worker, range(len(cases))):
-                reports[i] = rep
+        _run_parallel(reports, jobs, cfg)
     else:
         for i in range(len(cases)):
             reports[i] = _worker(i)[1]
@@ -1004,7 +1109,9 @@ def run_check(prop, cases, tier, meta, seed=0, only=None, jobs=None):
         print("VACUOUS case=%s (no path reached its assertions)" % name)
     if tot["cross_dis"]:
         print("SOLVER-DISAGREEMENT: %d cross-checked queries disagree" % tot["cross_dis"])
-    if exit_code == 0 and (harness_errors or vacuous or tot["cross_dis"] or not_repro or gaps):
+    for f in st_fail:
+        print("KERNEL-SELFTEST-FAILURE: %s" % f)
+    if exit_code == 0 and (harness_errors or vacuous or tot["cross_dis"] or not_repro or gaps or st_fail):
         exit_code = 2
 
     distinct = len(pcs)
@@ -1038,6 +1145,7 @@ def run_check(prop, cases, tier, meta, seed=0, only=None, jobs=None):
         bounds=meta.get("bounds", ""),
         outside_claim=meta.get("outside", []),
         known_findings_hit=sorted(printed_known),
+        kernel_selftest=dict(expressions=_selftest_count(), failures=len(st_fail)),
         not_reproduced=len(not_repro),
         engine_gaps=[g[0] for g in gaps][:10],
         per_case=[dict(name=r["name"], paths=r.get("paths"), goals=r.get("goals"), unsat=r.get("unsat"), sat=r.get("sat"),
